@@ -135,6 +135,7 @@ type Kernel struct {
 	AfterStep     func()
 	harnessErr    *HarnessError
 	StopRequested bool
+	rr            int
 	// LastActor is the actor resumed by the most recent step (nil for
 	// controller-only events); LastKey is that step's event key.
 	LastActor *Actor
@@ -603,6 +604,54 @@ func (k *Kernel) Run(maxSteps int) bool {
 			}
 		}
 		ev := evs[k.Tape.Weighted(w)]
+		k.record(ev.Key)
+		k.LastActor = nil
+		k.LastKey = ev.Key
+		k.Step++
+		ev.Fire()
+		if k.AfterStep != nil {
+			synctest.Wait()
+			if k.Failed() {
+				return false
+			}
+			k.AfterStep()
+		}
+	}
+	synctest.Wait()
+	return false
+}
+
+// RunFair executes controller steps without consulting the tape: among the
+// enabled events those of the lowest class (as given by class(key); negative =
+// never) are taken round-robin. Used for end-of-run protocols, whose outcome
+// must not depend on the tape (a minimised or exhausted tape would otherwise
+// be able to starve somebody and fake a "call never returned").
+func (k *Kernel) RunFair(maxSteps int, class func(key string) int) bool {
+	for n := 0; n < maxSteps; n++ {
+		synctest.Wait()
+		if k.Failed() || k.StopRequested {
+			return false
+		}
+		evs := k.collect()
+		best := -1
+		var cand []Event
+		for _, ev := range evs {
+			c := class(ev.Key)
+			if c < 0 {
+				continue
+			}
+			if best < 0 || c < best {
+				best, cand = c, cand[:0]
+			}
+			if c == best {
+				cand = append(cand, ev)
+			}
+		}
+		if len(cand) == 0 {
+			return true
+		}
+		ev := cand[k.rr%len(cand)]
+		k.rr++
 		k.record(ev.Key)
 		k.LastActor = nil
 		k.LastKey = ev.Key
